@@ -155,6 +155,28 @@ Definition produce (conv : row -> result) (res : option (list row)) : list sev :
   | None => [SErr; SClose]
   end.
 
+(* ------------------------------------------------------------------ cosmosdb Exists and the point read *)
+
+(* what ReadItem(key(id), id) answered: the item, an HTTP error status (an azcore.ResponseError), or an error
+   that is not an HTTP response *)
+Inductive read_reply := RFound | RStatus (code : nat) | RFailed.
+
+(* reader.Exists: nil error -> (true, nil); isNotFound (status 404, and only 404) -> (false, nil);
+   anything else -> an error. None = an error is returned. *)
+Definition cs_exists_reply (r : read_reply) : option bool :=
+  match r with
+  | RFound => Some true
+  | RStatus code => if Nat.eqb code 404 then Some false else None
+  | RFailed => None
+  end.
+
+(* what the service answers when it is healthy *)
+Definition store_reply (s : cstore) (id : N) : read_reply :=
+  if existsb (N.eqb id) (cs_plans s) then RFound else RStatus 404.
+
+(* Search / List when the query itself fails (pager.NextPage returns an error): one Stream{Err}, then close *)
+Definition cosmos_stream_failed : list sev := produce result_of_row None.
+
 (* ------------------------------------------------------------------ sqlite: buildSearchQuery *)
 
 Definition nonempty {A} (l : list A) : bool := match l with [] => false | _ => true end.
